@@ -7,9 +7,10 @@ From Coq Require Export String.
 Open Scope list_scope.
 Open Scope N_scope.
 
-(* where a cut of a PLY file lies: inside a header line, after [j] complete header lines, after [j] body bytes,
-   after [j] complete body lines and [m] tokens of the next one *)
-Inductive cutpos := HMid | HLines (j : N) | BBin (j : N) | BTok (j m : N).
+(* where a cut of a PLY file lies: inside a header line that follows [j] complete ones, after [j] complete header
+   lines, after [j] body bytes, after [j] complete body lines and [m] tokens of the next one; [NoModel]: the harness
+   has no token view of the file *)
+Inductive cutpos := NoModel | HMid (j : N) | HLines (j : N) | BBin (j : N) | BTok (j m : N).
 
 Inductive case :=
 | CStl (file : list N) (obs : list (N * N * bool))                    (* cut, class, result == full decode *)
@@ -30,7 +31,11 @@ Definition ascii_prefix (ls : list (list tok)) (j m : nat) : list (list tok) :=
   firstn j ls ++ (match m with O => [] | _ => [firstn m (nth j ls [])] end).
 Definition ply_prefix (f : plyfile) (p : cutpos) : option plyfile :=
   match p, pf_body f with
-  | HMid, _ => None
+  | NoModel, _ => None
+  (* readLine (reader.go:18-40) returns ("", io.EOF) for a line that is not terminated by '\n': a header cut inside
+     a line is the header cut after the preceding line *)
+  | HMid j, BodyBin _ => Some {| pf_header := firstn (N.to_nat j) (pf_header f); pf_body := BodyBin [] |}
+  | HMid j, BodyAscii _ => Some {| pf_header := firstn (N.to_nat j) (pf_header f); pf_body := BodyAscii [] |}
   | HLines j, BodyBin _ => Some {| pf_header := firstn (N.to_nat j) (pf_header f); pf_body := BodyBin [] |}
   | HLines j, BodyAscii _ => Some {| pf_header := firstn (N.to_nat j) (pf_header f); pf_body := BodyAscii [] |}
   | BBin j, BodyBin b => Some {| pf_header := pf_header f; pf_body := BodyBin (firstn (N.to_nat j) b) |}
@@ -71,7 +76,7 @@ Definition corr_ok (c : case) : bool :=
       let hd := parse_header (pf_header f) in
       forallb (fun '(k, cls, _, pos) =>
         match pos, ply_prefix f pos with
-        | HLines _, Some g => class_matches (PlyRead.read_mesh g) cls
+        | HLines _, Some g | HMid _, Some g => class_matches (PlyRead.read_mesh g) cls
         | _, Some g => class_matches (dor h <- hd; read_body default_groups true h (pf_body g)) cls
         | _, None => true
         end) obs
